@@ -6,6 +6,11 @@ HERE = os.path.dirname(os.path.dirname(os.path.abspath(__file__)))
 
 # id -> (category, technique, level text, level note, design ref)
 CHECKS = {
+ "C14": ("exploration",
+         "property-based testing: metamorphic relations (trivia insertion, k-line shifts)",
+         "Generated programs - accepted, or rejected through one injected error (incl. errors inside a macro expansion and inside an included file) - are re-compiled under 6 random trivia variants (blanks, tabs, LF/CRLF, line and block comments, backslash splices at every blank/newline and around brackets, semicolons and commas; never after < or >, never inside a #define's name/parameter adjacency) and, for located diagnostics, with k in {1,2,7,50} blank / comment / CRLF lines at the top of the file holding the error and in other files. Outputs, metadata and verdicts must not change; diagnostics keep file, column and message and move by exactly k lines. 3 000 base programs quick (about 20 compilations each), 60 000 thorough.",
+         "Insertion points are the existing blanks/newlines of the generator's own rendering plus non-merging punctuation, so token boundaries are known by construction. The base message is compared after the file:line:col prefix.",
+         "DESIGN.md section 3, C14"),
  "C07": ("exploration",
          "property-based testing: repeated evaluation in one process and in 8 fresh processes (hash-seed schedules)",
          "Generated inputs sized so that every hash-ordered collection in the anchored passes has several elements (resources over several bind groups incl. buffer addresses, several statics per function for Metal's implicit parameters, names colliding with generated _N suffixes, include graphs with #pragma once, rejected variants) are compiled 4 times in one process - every compile creates fresh HashMaps with fresh seeds - and once in each of 8 freshly spawned worker processes; the complete result (sources, stages, metadata, state or diagnostic) must be identical. 1 500 inputs x 4 in-process + 400 inputs x 8 processes quick; 40 000 + 6 000 x 8 thorough.",
